@@ -732,6 +732,230 @@ Section Tree.
              split; [apply Hns; split; [exact Hi|]; pose proof (rep_exists L i ltac:(lia) Hi); lia|].
              split; [|reflexivity]. intros ->. contradiction.
   Qed.
+
+  (* ---- sc_allreduce: the all-to-all window in canonical window order (all sends, then the receives) ------ *)
+  Definition a2a_dests (L me : Z) : list Z := filter (fun i => negb (rep L i =? me) && (rep L i <? P)) (nodes L).
+  Definition a2a_sends (L me : Z) (data : payload) : list (Z * Z * payload) :=
+    map (fun i => (rep L i, tag, data)) (a2a_dests L me).
+  Definition a2a_prog_w (level branch : Z) (data : payload) (k : payload -> prog) : prog :=
+    do_sends (a2a_sends level (rep level branch) data)
+      (a2a_post P m false target (nodes level) level (rep level branch) data (fun _ => [])
+         (fun sl => k (a2a_outer P m target (Z.to_nat level) (level - 1) 0 sl 0))).
+
+  Lemma In_dests L me i : 0 <= L -> (In i (a2a_dests L me) <-> 0 <= i < 2 ^ L /\ rep L i <> me /\ rep L i < P).
+  Proof. intros HL. unfold a2a_dests. rewrite filter_In, In_nodes by exact HL. lia. Qed.
+
+  Lemma sends_keys L me data : 0 <= L <= m -> NoDup (map skey (a2a_sends L me data)).
+  Proof.
+    intros HL. unfold a2a_sends. rewrite map_map. unfold skey. cbn [fst snd].
+    apply NoDup_map_in; [|apply NoDup_filter, NoDup_nodes].
+    intros x y Hx Hy E. apply In_dests in Hx, Hy; try lia. injection E as E. apply (rep_inj L x y); lia.
+  Qed.
+
+  (* which channels hold a message after the sends of the window, as long as the receivers ms have not received *)
+  Definition expect (L : Z) (ms : list Z) (a b t : Z) : bool :=
+    (t =? tag) && existsb (fun i => b =? rep L i) ms &&
+    existsb (fun j => (a =? rep L j) && negb (rep L j =? b) && (rep L j <? P)) (nodes L).
+
+  Lemma expect_true L ms a b t : expect L ms a b t = true <->
+    t = tag /\ (exists i, In i ms /\ b = rep L i) /\ (exists j, In j (nodes L) /\ a = rep L j /\ a <> b /\ a < P).
+  Proof.
+    unfold expect. rewrite !andb_true_iff, !existsb_exists. split.
+    - intros [[H1 [i [Hi H2]]] [j [Hj H3]]]. split; [lia|]. split; [exists i; split; [exact Hi|lia]|].
+      exists j. split; [exact Hj|]. lia.
+    - intros [H1 [[i [Hi H2]] [j [Hj H3]]]]. split; [split; [lia|exists i; split; [exact Hi|lia]]|].
+      exists j. split; [exact Hj|]. lia.
+  Qed.
+
+  Definition chan_inv (L : Z) (ms : list Z) (s : gs) : Prop :=
+    forall a b t, ch s a b t = if expect L ms a b t then [V L (a / wd L)] else [].
+
+  (* stage 2: the representatives ms run their receive loops one after the other *)
+  Lemma recv_stage L (K : Z -> slotsT -> prog) : 0 <= L <= m -> forall ms, NoDup ms ->
+    (forall i, In i ms -> 0 <= i < 2 ^ L /\ lft L i < P) -> forall s,
+    (forall i, In i ms -> pr s (rep L i) = a2a_post P m false target (nodes L) L (rep L i) (V L i) (fun _ => []) (K i)) ->
+    chan_inv L ms s ->
+    exists n s', run n s s' /\
+      (forall i, In i ms -> exists sl', pr s' (rep L i) = K i sl' /\ forall j, 0 <= j < 2 ^ L -> lft L j < P -> sl' j = V L j) /\
+      (forall r, (forall i, In i ms -> r <> rep L i) -> pr s' r = pr s r) /\
+      (forall a b t, ch s' a b t = []).
+  Proof.
+    intros HL. induction ms as [|i ms IH]; intros Hnd Hex s Hp Hinv.
+    - exists 0%nat, s. split; [apply run_nil|]. split; [intros ? []|]. split; [reflexivity|].
+      intros a b t. rewrite Hinv. unfold expect. cbn [existsb]. rewrite andb_false_r. reflexivity.
+    - inversion Hnd as [|? ? Hnot Hnd']; subst.
+      destruct (Hex i (or_introl eq_refl)) as [Hi Hix].
+      assert (Hri : rep L i < P) by (pose proof (rep_exists L i HL Hi); lia).
+      destruct (run_a2a_post L (rep L i) (V L i) (K i) HL (nodes L) (fun _ => []) s (NoDup_nodes L))
+        as [n1 [s1 [sl' [Hrun1 [Hp1 [Hs1 [Hs2 [Hpo1 [Hc1 Hco1]]]]]]]]].
+      { intros j Hj. apply In_nodes in Hj; lia. }
+      { apply Hp. left. reflexivity. }
+      { intros j Hj Hne Hlt. rewrite Hinv. replace (expect L (i :: ms) (rep L j) (rep L i) tag) with true.
+        - rewrite rep_div by (try exact HL; apply In_nodes in Hj; lia). reflexivity.
+        - symmetry. apply expect_true. split; [reflexivity|]. split; [exists i; split; [left|]; reflexivity|].
+          exists j. split; [exact Hj|]. split; [reflexivity|]. split; assumption. }
+      destruct (IH Hnd') with (s := s1) as [n2 [s2 [Hrun2 [Hq2 [Hpo2 Hc2]]]]].
+      { intros j Hj. apply Hex. right. exact Hj. }
+      { intros j Hj. rewrite Hpo1; [apply Hp; right; exact Hj|].
+        intros E. apply Hnot. destruct (Hex j (or_intror Hj)) as [Hj0 _].
+        rewrite <- (rep_inj L j i HL Hj0 Hi E). exact Hj. }
+      { intros a b t.
+        destruct (expect L (i :: ms) a b t) eqn:E1.
+        - pose proof E1 as E1'. apply expect_true in E1'. destruct E1' as [-> [[i' [Hi' ->]] [j [Hj [-> [Hab HaP]]]]]].
+          destruct Hi' as [<-|Hi'].
+          + rewrite Hc1 by assumption.
+            replace (expect L ms (rep L j) (rep L i) tag) with false; [reflexivity|].
+            symmetry. apply not_true_is_false. intros E2. apply expect_true in E2. destruct E2 as [_ [[i2 [Hi2 E2]] _]].
+            apply Hnot. destruct (Hex i2 (or_intror Hi2)) as [Hi20 _]. rewrite (rep_inj L i i2 HL Hi Hi20 E2). exact Hi2.
+          + assert (Hii : rep L i' <> rep L i).
+            { intros E. apply Hnot. destruct (Hex i' (or_intror Hi')) as [Hi0 _]. rewrite <- (rep_inj L i' i HL Hi0 Hi E). exact Hi'. }
+            rewrite Hco1 by (intros [Hx _]; contradiction). rewrite Hinv, E1.
+            replace (expect L ms (rep L j) (rep L i') tag) with true; [reflexivity|].
+            symmetry. apply expect_true. split; [reflexivity|]. split; [exists i'; split; [exact Hi'|reflexivity]|].
+            exists j. repeat split; assumption.
+        - replace (expect L ms a b t) with false.
+          + rewrite Hco1; [rewrite Hinv, E1; reflexivity|].
+            intros [-> [-> [j [Hj [-> [Hne Hlt]]]]]]. apply not_true_iff_false in E1. apply E1. apply expect_true.
+            split; [reflexivity|]. split; [exists i; split; [left|]; reflexivity|]. exists j. repeat split; assumption.
+          + symmetry. apply not_true_is_false. intros E2. apply not_true_iff_false in E1. apply E1.
+            apply expect_true in E2. destruct E2 as [-> [[i2 [Hi2 ->]] Hj]]. apply expect_true.
+            split; [reflexivity|]. split; [exists i2; split; [right; exact Hi2|reflexivity]|exact Hj]. }
+      exists (n1 + n2)%nat, s2. split; [eapply run_app; eauto|]. split; [|split; [|exact Hc2]].
+      + intros j [<-|Hj]; [|apply Hq2; exact Hj].
+        exists sl'. split.
+        * rewrite Hpo2; [exact Hp1|]. intros j Hj E. apply Hnot. destruct (Hex j (or_intror Hj)) as [Hj0 _].
+          rewrite (rep_inj L i j HL Hi Hj0 E). exact Hj.
+        * intros j Hj Hjx. rewrite Hs1 by (apply In_nodes; lia).
+          destruct (rep L j =? rep L i) eqn:E.
+          -- f_equal. symmetry. apply (rep_inj L j i); lia.
+          -- rewrite rep_exists by lia. replace (lft L j <? P) with true by lia. reflexivity.
+      + intros r Hr. rewrite Hpo2 by (intros j Hj; apply Hr; right; exact Hj). apply Hpo1. apply Hr. left. reflexivity.
+  Qed.
+
+  (* stage 3: the result flows down the subtrees ms *)
+  Lemma down_stage L (KQ : Z -> payload -> prog) (sref : gs) v : 0 <= L <= m -> da = true -> forall ms, NoDup ms ->
+    (forall i, In i ms -> 0 <= i /\ lft L i < P /\ after L i sref (KQ i)) -> forall s,
+    (forall i, In i ms -> pr s (rep L i) = KQ i v) ->
+    (forall i r, In i ms -> Sub L i r -> r <> rep L i -> pr s r = pr sref r) ->
+    (forall a b t, ch s a b t = []) ->
+    exists n s', run n s s' /\ (forall i r, In i ms -> Sub L i r -> pr s' r = Ret v) /\
+      (forall r, (forall i, In i ms -> ~ Sub L i r) -> pr s' r = pr s r) /\ (forall a b t, ch s' a b t = []).
+  Proof.
+    intros HL Hda. induction ms as [|i ms IH]; intros Hnd Hex s Hq Hoth Hch.
+    - exists 0%nat, s. split; [apply run_nil|]. split; [intros ? ? []|]. split; [reflexivity|exact Hch].
+    - inversion Hnd as [|? ? Hnot Hnd']; subst.
+      destruct (Hex i (or_introl eq_refl)) as [Hi0 [Hix Haf]].
+      destruct (proj1 Haf Hda s v) as [n1 [s1 [Hrun1 [Hp1 [Hpo1 Hc1]]]]].
+      { apply Hq. left. reflexivity. }
+      { intros r Hr Hne. apply (Hoth i r); [left; reflexivity|exact Hr|exact Hne]. }
+      { intros a b t _ _. apply Hch. }
+      assert (Hdis : forall j r, In j ms -> Sub L j r -> ~ Sub L i r).
+      { intros j r Hj Hr Hx. apply Hnot. rewrite (Sub_inj L i j r ltac:(lia) Hx Hr). exact Hj. }
+      destruct (IH Hnd') with (s := s1) as [n2 [s2 [Hrun2 [Hp2 [Hpo2 Hc2]]]]].
+      { intros j Hj. apply Hex. right. exact Hj. }
+      { intros j Hj. rewrite Hpo1; [apply Hq; right; exact Hj|]. apply (Hdis j); [exact Hj|].
+        destruct (Hex j (or_intror Hj)) as [Hj0 [Hjx _]]. apply rep_range; lia. }
+      { intros j r Hj Hr Hne. rewrite Hpo1 by (apply (Hdis j); assumption). apply (Hoth j r); [right; exact Hj|exact Hr|exact Hne]. }
+      { intros a b t. rewrite Hc1. apply Hch. }
+      exists (n1 + n2)%nat, s2. split; [eapply run_app; eauto|]. split; [|split; [|exact Hc2]].
+      + intros j r [<-|Hj] Hr.
+        * rewrite Hpo2; [apply Hp1; exact Hr|]. intros j Hj Hx. apply (Hdis j r Hj Hx Hr).
+        * apply (Hp2 j r Hj Hr).
+      + intros r Hr. rewrite Hpo2 by (intros j Hj; apply Hr; right; exact Hj). apply Hpo1. apply Hr. left. reflexivity.
+  Qed.
+
+  (* ---- sc_allreduce (window order in the all-to-all stage): the whole system ---------------------------- *)
+  Theorem allreduce_sched : da = true -> (forall l b d k, A2A l b d k = a2a_prog_w l b d k) ->
+    forall s0, (forall r, 0 <= r < P -> pr s0 r = start r) -> (forall r, ~ 0 <= r < P -> exists o, pr s0 r = Ret o) ->
+    (forall a b t, ch s0 a b t = []) ->
+    exists n f, run n s0 f /\ (forall r, 0 <= r < P -> pr f r = Ret (V 0 0)) /\
+      (forall r, ~ 0 <= r < P -> pr f r = pr s0 r) /\ (forall a b t, ch f a b t = []).
+  Proof.
+    intros Hda HA s0 Hst Hout Hch.
+    destruct (Z.eq_dec m 0) as [Hm0|Hm0].
+    - assert (P = 1) by (rewrite Hm0 in HP; change (2 ^ 0) with 1 in HP; lia).
+      exists 0%nat, s0. split; [apply run_nil|]. split; [|split; [reflexivity|exact Hch]].
+      intros r Hr. assert (r = 0) as -> by lia. rewrite Hst by lia. unfold start, V. rewrite Hm0. reflexivity.
+    - pose proof al_pos as Hal1.
+      set (L := Z.min m al). assert (HL : 1 <= L <= al /\ L <= m /\ (L = m \/ al <= L)) by lia.
+      destruct HL as [HL1 [HL2 HL3]].
+      pose proof (wd_pos L ltac:(lia)) as Hw.
+      set (ns := filter (fun i => lft L i <? P) (nodes L)).
+      assert (Hns : forall i, In i ns <-> 0 <= i < 2 ^ L /\ lft L i < P).
+      { intros i. unfold ns. rewrite filter_In, In_nodes by lia. lia. }
+      assert (Hnsd : NoDup ns) by (apply NoDup_filter, NoDup_nodes).
+      assert (Hnode : forall r, 0 <= r < P -> In (r / wd L) ns /\ Sub L (r / wd L) r).
+      { intros r Hr. destruct (node_of L r ltac:(lia) Hr) as [H0 HS]. split; [|exact HS]. apply Hns.
+        assert (lft L (r / wd L) < P) by (destruct HS as [[? ?] ?]; lia).
+        split; [|assumption]. split; [exact H0|]. apply br_lt; try lia. }
+      destruct (forest L ltac:(lia) HL3 ns Hnsd) with (s := s0) as [n1 [s1 [KQ [Hrun1 [Hq1 [Hpo1 Hc1]]]]]].
+      { intros i Hi. apply Hns in Hi. lia. }
+      { intros i r Hi Hr. apply Hst. split; [|apply Hr]. apply (Sub_nonneg L i r); [lia| |exact Hr]. apply Hns in Hi. lia. }
+      { exact Hch. }
+      assert (Hrepx : forall i, In i ns -> rep L i < P).
+      { intros i Hi. apply Hns in Hi. pose proof (rep_exists L i ltac:(lia) ltac:(lia)). lia. }
+      (* stage 1: the sends of the window *)
+      set (rs := map (rep L) ns).
+      assert (Hrs : forall r, In r rs <-> exists i, In i ns /\ r = rep L i).
+      { intros r. unfold rs. rewrite in_map_iff. split; intros [i [H1 H2]]; exists i; [split; [exact H2|symmetry; exact H1]|split; [symmetry; exact H2|exact H1]]. }
+      assert (Hrsd : NoDup rs).
+      { apply NoDup_map_in; [|exact Hnsd]. intros x y Hx Hy E. apply Hns in Hx, Hy. apply (rep_inj L x y); lia. }
+      set (Kr := fun i sl => KQ i (a2a_outer P m target (Z.to_nat L) (L - 1) 0 sl 0)).
+      destruct (sends_all (fun r => a2a_sends L r (V L (r / wd L)))
+                          (fun r => a2a_post P m false target (nodes L) L r (V L (r / wd L)) (fun _ => []) (Kr (r / wd L))) rs Hrsd s1)
+        as [n2 [s2 [Hrun2 [Hp2 [Hpo2 [Hcs2 Hco2]]]]]].
+      { intros r Hr. apply Hrs in Hr. destruct Hr as [i [Hi ->]]. destruct (Hq1 i Hi) as [Hp _].
+        rewrite Hp, rg_a2a, HA by lia. rewrite rep_div by (apply Hns in Hi; lia). reflexivity. }
+      assert (Hinv2 : chan_inv L ns s2).
+      { intros a b t. destruct (in_dec Z.eq_dec a rs) as [Hin|Hin].
+        - rewrite Hcs2 by exact Hin. rewrite Hc1. cbn [app].
+          apply Hrs in Hin. destruct Hin as [j0 [Hj0 ->]].
+          destruct (expect L ns (rep L j0) b t) eqn:E.
+          + apply expect_true in E. destruct E as [-> [[i [Hi ->]] [j [Hj [Ej [Hab HaP]]]]]].
+            apply sent_one; [apply sends_keys; lia|]. unfold a2a_sends. apply in_map_iff. exists i. split; [reflexivity|].
+            apply In_dests; [lia|]. apply Hns in Hi. split; [lia|]. split; [lia|apply Hrepx; apply Hns; exact Hi].
+          + apply sent_none. intros msg Hmsg. apply not_true_iff_false in E. apply E. apply expect_true.
+            unfold a2a_sends in Hmsg. apply in_map_iff in Hmsg. destruct Hmsg as [i [Ei Hi]]. injection Ei as <- <- _.
+            apply In_dests in Hi; [|lia]. split; [reflexivity|]. split.
+            * exists i. split; [apply Hns; split; [lia|]; pose proof (rep_exists L i ltac:(lia) ltac:(lia)); lia|reflexivity].
+            * exists j0. apply Hns in Hj0. split; [apply In_nodes; lia|]. split; [reflexivity|]. split; [lia|].
+              pose proof (rep_exists L j0 ltac:(lia) ltac:(lia)). lia.
+        - rewrite Hco2 by exact Hin. rewrite Hc1.
+          replace (expect L ns a b t) with false; [reflexivity|]. symmetry. apply not_true_is_false. intros E.
+          apply expect_true in E. destruct E as [_ [_ [j [Hj [-> [_ HaP]]]]]]. apply Hin. apply Hrs. exists j.
+          split; [|reflexivity]. apply In_nodes in Hj; [|lia]. apply Hns. split; [exact Hj|].
+          pose proof (rep_exists L j ltac:(lia) Hj). lia. }
+      (* stage 2: the receives of the window and the combination *)
+      destruct (recv_stage L Kr ltac:(lia) ns Hnsd) with (s := s2) as [n3 [s3 [Hrun3 [Hq3 [Hpo3 Hc3]]]]].
+      { intros i Hi. apply Hns. exact Hi. }
+      { intros i Hi. rewrite Hp2 by (apply Hrs; exists i; tauto). rewrite rep_div by (apply Hns in Hi; lia). reflexivity. }
+      { exact Hinv2. }
+      assert (Hq3' : forall i, In i ns -> pr s3 (rep L i) = KQ i (V 0 0)).
+      { intros i Hi. destruct (Hq3 i Hi) as [sl' [Hp Hsl]]. rewrite Hp. unfold Kr. f_equal.
+        apply outer_spec; try lia. replace (L - 1 + 1) with L by lia. intros j Hj Hx.
+        change (2 ^ 0) with 1. rewrite Z.mul_1_r. apply Hsl; assumption. }
+      (* stage 3: the way down *)
+      assert (Hnotrep : forall i r, In i ns -> Sub L i r -> r <> rep L i -> forall j, In j ns -> r <> rep L j).
+      { intros i r Hi Hr Hne j Hj E. apply Hne. rewrite E. f_equal.
+        apply Hns in Hj. assert (Sub L j r) by (rewrite E; apply rep_range; lia). eapply Sub_inj; eauto; lia. }
+      destruct (down_stage L KQ s1 (V 0 0) ltac:(lia) Hda ns Hnsd) with (s := s3) as [n4 [s4 [Hrun4 [Hp4 [Hpo4 Hc4]]]]].
+      { intros i Hi. destruct (Hq1 i Hi) as [_ Ha]. apply Hns in Hi. split; [lia|]. split; [lia|exact Ha]. }
+      { exact Hq3'. }
+      { intros i r Hi Hr Hne. rewrite Hpo3 by (intros j Hj; apply (Hnotrep i r Hi Hr Hne j Hj)).
+        apply Hpo2. intros Hx. apply Hrs in Hx. destruct Hx as [j [Hj E]]. exact (Hnotrep i r Hi Hr Hne j Hj E). }
+      { exact Hc3. }
+      exists (n1 + n2 + n3 + n4)%nat, s4.
+      split; [eapply run_app; [eapply run_app; [eapply run_app; eauto|eauto]|eauto]|]. split; [|split; [|exact Hc4]].
+      + intros r Hr. destruct (Hnode r Hr) as [Hi HS]. apply (Hp4 (r / wd L) r Hi HS).
+      + intros r Hr.
+        assert (Hnos : forall i, In i ns -> ~ Sub L i r).
+        { intros i Hi HS. apply Hr. split; [|apply HS]. apply (Sub_nonneg L i r); [lia| |exact HS]. apply Hns in Hi. lia. }
+        assert (Hnor : forall i, In i ns -> r <> rep L i).
+        { intros i Hi E. apply (Hnos i Hi). rewrite E. apply Hns in Hi. apply rep_range; lia. }
+        rewrite Hpo4 by exact Hnos. rewrite Hpo3 by exact Hnor.
+        rewrite Hpo2 by (intros Hx; apply Hrs in Hx; destruct Hx as [i [Hi E]]; exact (Hnor i Hi E)).
+        apply Hpo1. exact Hnos.
+  Qed.
 End Tree.
 
 (* ---- sc_reduce with the per-rank programs of C03/ReduceModel.v ------------------------------------------ *)
@@ -803,4 +1027,148 @@ Theorem sym_eval_reduce_result {T} (f : T -> T -> T) (x : Z -> T) P :
 Proof.
   unfold sym_reduce_result, reduce_result. rewrite <- (app_nil_r (treeval payload sym_f P _ _ _ _)).
   apply sym_eval_treeval. lia.
+Qed.
+
+(* ---- sc_allreduce ------------------------------------------------------------------------------------------
+   The per-rank program of C03/ReduceModel.v lists the actions in the order in which the C code POSTS them; in
+   the all-to-all stage of sc_allreduce that is  Irecv(peer_0); Isend(peer_0); Irecv(peer_1); Isend(peer_1); ...
+   all completed later by Waitall.  MPI/Sem.v reads every Recv as a BLOCKING receive; read that way the literal
+   program deadlocks for every P >= 2 (allreduce_posting_order_blocks below).  The schedule theorem is therefore
+   stated for the program in canonical window order (allreduce_prog_w: all sends of the window, then its
+   receives - the convention of MPI/Prog.v's `phase`, used by the allgather programs), and the relation between
+   the two programs is proved: allreduce_prog_w is obtained from the literal program by moving sends in front of
+   receives posted earlier (nbeq: congruence closure of that one swap). *)
+Definition allreduce_prog_w (P m me : Z) : prog :=
+  rec_gen P m true 0 (a2a_prog_w P m 0) (S (Z.to_nat m)) m me (sym_leaf me) (fun d => Ret d).
+
+Definition all_start_w (P : Z) : gs :=
+  mkgs (fun r => if (0 <=? r) && (r <? P) then allreduce_prog_w P (maxlevel P) r else Ret []) (fun _ _ _ => []).
+Definition all_end (P : Z) : gs :=
+  mkgs (fun r => if (0 <=? r) && (r <? P) then Ret (sym_reduce_result P) else Ret []) (fun _ _ _ => []).
+
+Lemma all_end_final P : final (all_end P).
+Proof. intros r. unfold all_end. cbn [pr]. destruct ((0 <=? r) && (r <? P)); eauto. Qed.
+
+Theorem allreduce_w_one_schedule P : 1 <= P <= 2 ^ 30 -> exists n, run n (all_start_w P) (all_end P).
+Proof.
+  intros HP. pose proof (maxlevel_le30 P HP) as Hm. pose proof (maxlevel_cover P ltac:(lia)) as [_ Hc].
+  destruct (allreduce_sched P (maxlevel P) 0 Hm ltac:(lia) ltac:(lia) true (a2a_prog_w P (maxlevel P) 0) eq_refl
+                            (fun _ _ _ _ => eq_refl) (all_start_w P)) as [n [f [Hrun [Hres [Hout Hch]]]]].
+  - intros r Hr. unfold all_start_w. cbn [pr]. replace ((0 <=? r) && (r <? P)) with true by lia. reflexivity.
+  - intros r Hr. unfold all_start_w. cbn [pr]. replace ((0 <=? r) && (r <? P)) with false by lia. eauto.
+  - reflexivity.
+  - exists n. replace (all_end P) with f; [exact Hrun|]. apply gs_eq.
+    + intros r. unfold all_end. cbn [pr]. destruct ((0 <=? r) && (r <? P)) eqn:E.
+      * rewrite Hres by lia. unfold V, sym_reduce_result, reduce_result. rewrite Z.sub_0_r. reflexivity.
+      * rewrite Hout by lia. unfold all_start_w. cbn [pr]. rewrite E. reflexivity.
+    + intros a b t. rewrite Hch. reflexivity.
+Qed.
+
+Theorem allreduce_w_all_schedules P : 1 <= P <= 2 ^ 30 ->
+  exists n, run n (all_start_w P) (all_end P) /\ terminal_for (all_start_w P) (all_end P) n.
+Proof.
+  intros HP. destruct (allreduce_w_one_schedule P HP) as [n Hn]. exists n. split; [exact Hn|].
+  apply one_schedule_all_schedules; [exact Hn|apply all_end_final].
+Qed.
+
+(* ---- the relation between the posting-order program and the window-order program ------------------------ *)
+Inductive nbeq : prog -> prog -> Prop :=
+| nb_refl p : nbeq p p
+| nb_trans p q r : nbeq p q -> nbeq q r -> nbeq p r
+| nb_cong a k k' : (forall v, nbeq (k v) (k' v)) -> nbeq (Do a k) (Do a k')
+| nb_swap src t d t' msg k :       (* a send posted after a receive whose reply it does not use moves in front of it *)
+    nbeq (Do (Recv src t) (fun v => Do (Send d t' msg) (fun u => k v u)))
+         (Do (Send d t' msg) (fun u => Do (Recv src t) (fun v => k v u))).
+
+Lemma nbeq_send d t msg k k' : nbeq k k' -> nbeq (send d t msg k) (send d t msg k').
+Proof. intros H. unfold send. apply nb_cong. intros _. exact H. Qed.
+Lemma nbeq_recv s t k k' : (forall v, nbeq (k v) (k' v)) -> nbeq (recv s t k) (recv s t k').
+Proof. intros H. unfold recv. apply nb_cong. intros v. apply H. Qed.
+Lemma nbeq_do_sends S k k' : nbeq k k' -> nbeq (do_sends S k) (do_sends S k').
+Proof. induction S as [|[[d t] msg] S IH]; intros H; cbn [do_sends]; [exact H|]. apply nbeq_send. apply IH. exact H. Qed.
+
+Lemma hoist_sends p t S K : nbeq (recv p t (fun v => do_sends S (K v))) (do_sends S (recv p t K)).
+Proof.
+  induction S as [|[[d t'] msg] S IH]; cbn [do_sends]; [apply nb_refl|].
+  eapply nb_trans; [|apply nbeq_send; exact IH].
+  unfold recv, send. exact (nb_swap p t d t' msg (fun v _ => do_sends S (K (tl v)))).
+Qed.
+
+Section Norm.
+  Variable P m target : Z.
+  Notation tag := c_SC_TAG_REDUCE.
+
+  Lemma a2a_post_norm L me data : forall is sl k k', (forall x, nbeq (k x) (k' x)) ->
+    nbeq (a2a_post P m true target is L me data sl k)
+         (do_sends (map (fun i => (rep m target L i, tag, data))
+                        (filter (fun i => negb (rep m target L i =? me) && (rep m target L i <? P)) is))
+                   (a2a_post P m false target is L me data sl k')).
+  Proof.
+    induction is as [|i rest IH]; intros sl k k' Hk; cbn [a2a_post filter map do_sends]; [apply Hk|].
+    fold (rep m target L i).
+    destruct (rep m target L i =? me) eqn:E1; cbn [negb andb]; [apply IH; exact Hk|].
+    destruct (rep m target L i <? P) eqn:E2; cbn [map do_sends]; [|apply IH; exact Hk].
+    eapply nb_trans.
+    { apply nbeq_recv. intros v. apply nbeq_send. apply (IH (supd sl i v) k k' Hk). }
+    eapply nb_trans.
+    { unfold recv, send.
+      exact (nb_swap (rep m target L i) tag (rep m target L i) tag data
+               (fun v _ => do_sends _ (a2a_post P m false target rest L me data (supd sl i (tl v)) k'))). }
+    unfold send. apply nb_cong. intros _. cbv beta.
+    exact (hoist_sends (rep m target L i) tag _ (fun v => a2a_post P m false target rest L me data (supd sl i v) k')).
+  Qed.
+
+  Lemma a2a_prog_norm l b d k k' : (forall x, nbeq (k x) (k' x)) ->
+    nbeq (a2a_prog P m true target l b d k) (a2a_prog_w P m target l b d k').
+  Proof.
+    intros Hk. unfold a2a_prog, a2a_prog_w, a2a_sends, a2a_dests. cbn [orb].
+    apply a2a_post_norm. intros sl. apply Hk.
+  Qed.
+
+  Lemma rec_gen_nbeq da A B :
+    (forall l b d k k', (forall x, nbeq (k x) (k' x)) -> nbeq (A l b d k) (B l b d k')) ->
+    forall fuel l b d k k', (forall x, nbeq (k x) (k' x)) ->
+    nbeq (rec_gen P m da target A fuel l b d k) (rec_gen P m da target B fuel l b d k').
+  Proof.
+    intros HAB. induction fuel as [|fu IH]; intros l b d k k' Hk; cbn [rec_gen]; [apply Hk|].
+    destruct (l =? 0); [apply Hk|]. destruct (l <=? c_SC_REDUCE_ALLTOALL_LEVEL); [apply HAB; exact Hk|].
+    destruct (sc_search_bias m l b target =? sc_search_bias m (l - 1) (b / 2) target).
+    - assert (Hc : forall x, nbeq (if da && (sc_search_bias m l (Z.lxor b 1) target <? P)
+                                  then send (sc_search_bias m l (Z.lxor b 1) target) tag x (k x) else k x)
+                                 (if da && (sc_search_bias m l (Z.lxor b 1) target <? P)
+                                  then send (sc_search_bias m l (Z.lxor b 1) target) tag x (k' x) else k' x)).
+      { intros x. destruct (da && _); [apply nbeq_send|]; apply Hk. }
+      destruct (sc_search_bias m l (Z.lxor b 1) target <? P).
+      + apply nbeq_recv. intros v. apply IH. exact Hc.
+      + apply IH. exact Hc.
+    - destruct (sc_search_bias m l (Z.lxor b 1) target <? P); [|apply Hk].
+      apply nbeq_send. destruct da; [apply nbeq_recv; intros v|]; apply Hk.
+  Qed.
+End Norm.
+
+Theorem allreduce_prog_window_form P m me : nbeq (reduce_prog P m true 0 me) (allreduce_prog_w P m me).
+Proof.
+  unfold reduce_prog, allreduce_prog_w. rewrite rec_gen_eq.
+  apply rec_gen_nbeq; [|intros x; apply nb_refl].
+  intros l b d k k' Hk. apply a2a_prog_norm. exact Hk.
+Qed.
+
+(* read with blocking receives, the posting-order program of sc_allreduce is stuck from the start for two ranks:
+   both ranks begin with the receive of the all-to-all window *)
+Example allreduce_posting_order_blocks :
+  let s0 := mkgs (fun r => if (0 <=? r) && (r <? 2) then reduce_prog 2 (maxlevel 2) true 0 r else Ret []) (fun _ _ _ => []) in
+  (forall r s', ~ step s0 r s') /\ ~ final s0.
+Proof.
+  cbv zeta. split.
+  - intros r s' Hs. inversion Hs as [? ? d t msg k Hp|? ? src t k msg q Hsrc Hp Hc]; subst; cbn [pr ch] in *; [|discriminate].
+    destruct (Z.eq_dec r 0) as [->|H0]; [vm_compute in Hp; discriminate|].
+    destruct (Z.eq_dec r 1) as [->|H1]; [vm_compute in Hp; discriminate|].
+    replace ((0 <=? r) && (r <? 2)) with false in Hp by lia. discriminate.
+  - intros Hf. destruct (Hf 0) as [o Ho]. vm_compute in Ho. discriminate.
+Qed.
+
+Lemma all_end_spec P :
+  (forall r, 0 <= r < P -> pr (all_end P) r = Ret (sym_reduce_result P)) /\ (forall a b t, ch (all_end P) a b t = []).
+Proof.
+  split; [|reflexivity]. intros r Hr. unfold all_end. cbn [pr]. replace ((0 <=? r) && (r <? P)) with true by lia. reflexivity.
 Qed.
